@@ -30,6 +30,7 @@ structure FloatState where
   value : PyFloat
   provided : Bool
   valid : Bool
+  deriving DecidableEq, Repr
 
 def errMsg (v : PyFloat) (name : String) : String :=
   "Error: Parameter given (" ++ reprStr v ++ ") for " ++ name ++ " outside of valid range."
@@ -46,6 +47,92 @@ def readFloatFixed (d : FloatDecl) (st : FloatState) (v : PyFloat) : Except Stri
   let st1 := if v.beq' (.fin d.dflt) then { st with provided := true } else st
   if v.beq' st1.value then .ok st1
   else if !( !(v.lt (.fin d.min)) && !((PyFloat.fin d.max).lt v) && v.beq' v) then .error (errMsg v d.name)
+  else .ok { value := v, provided := true, valid := true }
+
+end GeoVerif
+
+namespace GeoVerif
+
+/-- a float parameter declaration as extracted from the repository (`none` = unbounded / not numeric) -/
+structure FDecl where
+  id : Nat
+  min : Option Rat
+  max : Option Rat
+  dflt : Option Rat
+  deriving DecidableEq, Repr
+
+/-- the allowable set of an integer / option parameter: an explicit list, or a contiguous range `lo … hi` (the
+repository writes `list(range(lo, hi + 1))`, sometimes with a million members) -/
+inductive AllowSet
+  | list (l : List Int)
+  | range (lo hi : Int)
+  deriving DecidableEq, Repr
+
+def AllowSet.contains : AllowSet → Int → Bool
+  | .list l, v => l.contains v
+  | .range lo hi, v => decide (lo ≤ v) && decide (v ≤ hi)
+
+def AllowSet.nonempty : AllowSet → Bool
+  | .list l => !l.isEmpty
+  | .range lo hi => decide (lo ≤ hi)
+
+/-- an integer / option parameter declaration: the allowable set and the default -/
+structure IDecl where
+  id : Nat
+  allow : AllowSet
+  dflt : Option Int
+  deriving DecidableEq, Repr
+
+def FDecl.wellFormed (d : FDecl) : Bool :=
+  match d.min, d.max with
+  | some a, some b => decide (a ≤ b)
+  | _, _ => true
+
+def IDecl.wellFormed (d : IDecl) : Bool := d.allow.nonempty
+
+structure IntState where
+  value : Int
+  provided : Bool
+  valid : Bool
+  deriving DecidableEq, Repr
+
+/-- the int branch of `ReadParameter`: equal to the default ⇒ nothing happens (not even `Provided`); equal to the current
+value ⇒ nothing; otherwise membership in the allowable set -/
+def readInt (allow : AllowSet) (dflt : Option Int) (name : String) (st : IntState) (v : Int) : Except String IntState :=
+  if dflt = some v then .ok st
+  else if v = st.value then .ok st
+  else if !(allow.contains v) then .error ("Error: Parameter given (" ++ toString v ++ ") for " ++ name ++ " outside of valid range.")
+  else .ok { value := v, provided := true, valid := true }
+
+def isDefault (dflt : Option Rat) (v : PyFloat) : Bool :=
+  match dflt with
+  | some d => v.beq' (.fin d)
+  | none => false
+
+/-- `v < Min` (an unbounded declaration has `Min = -inf`, below which nothing lies) -/
+def belowMin (min : Option Rat) (v : PyFloat) : Bool :=
+  match min with
+  | some a => v.lt (.fin a)
+  | none => false
+
+def aboveMax (max : Option Rat) (v : PyFloat) : Bool :=
+  match max with
+  | some b => (PyFloat.fin b).lt v
+  | none => false
+
+def markProvided (b : Bool) (st : FloatState) : FloatState := if b then { st with provided := true } else st
+
+/-- float branch of `ReadParameter` with optional (unbounded) limits and the repaired comparison `not (Min <= v <= Max)`:
+a value equal to the default only sets `Provided`; a value equal to the current one changes nothing; otherwise the range test -/
+def readFloat (min max dflt : Option Rat) (name : String) (st : FloatState) (v : PyFloat) : Except String FloatState :=
+  if v.beq' (markProvided (isDefault dflt v) st).value then .ok (markProvided (isDefault dflt v) st)
+  else if belowMin min v || aboveMax max v || !(v.beq' v) then .error (errMsg v name)
+  else .ok { value := v, provided := true, valid := true }
+
+/-- the comparison as it stood on the pinned tree: `v < Min or v > Max` (NaN passes) -/
+def readFloatOld (min max dflt : Option Rat) (name : String) (st : FloatState) (v : PyFloat) : Except String FloatState :=
+  if v.beq' (markProvided (isDefault dflt v) st).value then .ok (markProvided (isDefault dflt v) st)
+  else if belowMin min v || aboveMax max v then .error (errMsg v name)
   else .ok { value := v, provided := true, valid := true }
 
 end GeoVerif
